@@ -6,7 +6,7 @@ Nothing here re-implements an analysis: `analyze()` calls qual_names / activity 
 reaching_fndefs / liveness exactly as converters/control_flow.py does, with the three `Analyzer` classes
 replaced (module global, harness process only) by recording subclasses that keep every instance.
 """
-import ast, contextlib
+import ast, contextlib, re
 
 import common
 from common import sexp
@@ -15,6 +15,14 @@ import pyast
 
 class Unsupported(Exception):
     """The pinned tree cannot analyse this function (e.g. `except E as e` crashes cfg/activity)."""
+    kind = 'harness'
+    crash = False
+
+
+# the ways the analyses of the pinned tree crash on functions of the /repo corpus (all outside the property's class:
+# `except E as e` — py3 `ast` stores the name as a str —, lambdas in decorators / class bodies that have no graph)
+EXPECTED_CRASH_KINDS = ("AttributeError: 'str' object has no attribute '___pyct_anno'", 'KeyError: <ast.Lambda object>',
+                        'KeyError: <ast.Expr object>')
 
 
 def _mods():
@@ -63,8 +71,11 @@ class Analysis:
                 node = m['fnd'].resolve(node, ctx, self.graphs)
             with _recording(m['liveness'], self.live_an):
                 node = m['liveness'].resolve(node, ctx, self.graphs)
-        except (AttributeError, AssertionError, ValueError, KeyError, TypeError, NotImplementedError) as e:
-            raise Unsupported('%s: %s' % (type(e).__name__, str(e)[:120]))
+        except (AttributeError, AssertionError, ValueError, KeyError, TypeError, NotImplementedError, IndexError) as e:
+            u = Unsupported('%s: %s' % (type(e).__name__, str(e)[:120]))
+            u.kind = '%s: %s' % (type(e).__name__, re.sub(r' at 0x[0-9a-f]+', '', str(e))[:60])
+            u.crash = True
+            raise u
         assert node is fnode
         self.qn_ids, self.qns = {}, []
         self.by_graph = {}
@@ -168,6 +179,16 @@ class Analysis:
                     for df in ds:
                         def_of[id(df)] = (self.vid(q), idx[n])
                 gen[idx[n]] = sorted((self.vid(q), idx[n]) for q in st.value)
+            # definitions created for parameters carry a (weak) reference to the function that owns the parameter
+            param_of_bad = 0
+            for n, st in an.gen_map.items():
+                sc = anno.getanno(n.ast_node, anno.Static.SCOPE)
+                for q, ds in st.value.items():
+                    for df in ds:
+                        want = sc.params.get(q)
+                        got = df.param_of() if df.param_of is not None else None
+                        if (want is not None) != (got is not None) or (want is not None and got is not want):
+                            param_of_bad += 1
             self._def_of = getattr(self, '_def_of', {})
             self._def_of.update(def_of)
             empty_sets = 0
@@ -182,7 +203,8 @@ class Analysis:
                         out.append(def_of[id(df)])
                 return sorted(out)
             d['rd'] = {'gen': gen, 'in': {idx[n]: st2(an.in_[n]) for n in nodes}, 'out': {idx[n]: st2(an.out[n]) for n in nodes},
-                       'keys_out': {idx[n]: self.vids(an.out[n].value.keys()) for n in nodes}, 'empty_sets': empty_sets}
+                       'keys_out': {idx[n]: self.vids(an.out[n].value.keys()) for n in nodes}, 'empty_sets': empty_sets,
+                       'param_of_bad': param_of_bad}
         if 'live' in ans:
             an = ans['live']
             d['live'] = {'in': {idx[n]: self.vids(an.in_[n]) for n in nodes}, 'out': {idx[n]: self.vids(an.out[n]) for n in nodes}}
